@@ -230,7 +230,9 @@ func (g *coreGen) containerRead() Node {
 		}
 		return cn("mcall", "n", "r1", "m", "length", "args", []any{})
 	case 5:
-		return cn("var", "n", g.pick("r1", "o0")) // a container used as a value (truthy, number 0, string form "")
+		// a container used as an operand (truthy, number 0, string form ""), never stored anywhere:
+		// storing it would alias it, and growth through an alias is the open finding alias-length
+		return cn("bin", "op", "+", "l", map[string]any(cn("var", "n", g.pick("r1", "o0"))), "r", map[string]any(g.num(g.r.Intn(5))))
 	default:
 		// (pop is only used as a statement of its own: inside a larger expression the order in which the
 		// target cell is resolved and the array shrinks is not fixed by the statement)
